@@ -102,7 +102,7 @@ func longStretch(obs []any, key string) bool {
 
 // C17: stack use does not grow with the number of iterations between yields.
 func C17(c *vf.Check) {
-	reps := tier(c, 20000, 1000000)
+	reps := tier(c, 20000, 200000)
 	const growthLimit = 1000 // frames; any implementation satisfying the property stays far below, one frame per iteration is far above
 	calls := 3
 
